@@ -164,7 +164,7 @@ Definition push (p : nat) (pr : prod) (s : state) : state :=
 
 (* QueuePolicyStorage::try_send / send_blocking critical section ([first] = true), and the
    re-check inside capacity_available.wait after a wake-up ([first] = false) *)
-Definition admit (p : nat) (pr : prod) (s : state) : state :=
+Definition admission (p : nat) (pr : prod) (s : state) : state :=
   if negb (accepting s) then goto p (PLeave 0) s
   else if full s then
     match knd pr with
@@ -186,9 +186,9 @@ Definition prod_step (p : nat) (s : state) : option state :=
       else Some (goto p PStopChk (set_active (S (active s)) s))
   | PStopChk =>
       if stop_req s then Some (goto p (PLeave 0) s) else Some (goto p PAdmit s)
-  | PAdmit => Some (admit p pr s)
+  | PAdmit => Some (admission p pr s)
   | PWaiting => None
-  | PWoken => Some (admit p pr s)
+  | PWoken => Some (admission p pr s)
   | PMark =>
       (* realtime_mark_push_update_pending_impl: dropped, without notify, when stop was requested *)
       if stop_req s then Some (goto p (PLeave 1) s)
